@@ -8,6 +8,10 @@ import time
 
 VERIF = os.path.dirname(os.path.dirname(os.path.abspath(__file__)))
 EVIDENCE = os.path.join(VERIF, "evidence")
+_alt = os.environ.get("VERIF_REPO")
+if _alt and os.path.realpath(_alt) != "/repo":
+    # a run against a scratch copy (seeded or benign change) must not overwrite the evidence of /repo itself
+    EVIDENCE = os.path.join(VERIF, ".work", "evidence-of-scratch-trees", os.path.basename(os.path.realpath(_alt)))
 REPLAYS = os.path.join(VERIF, "replays")
 KNOWN = os.path.join(VERIF, "known_findings.json")
 
